@@ -296,3 +296,52 @@ func Dump(d db.KeyValueStore) map[string]string {
 	}
 	return out
 }
+
+// Events pages through an event query (chunk size chunk) over the whole canonical chain and
+// returns the events rendered one per entry.
+func (n *Node) Events(addrs []felt.Address, keys [][]felt.Felt, chunk uint64) ([]string, error) {
+	f, err := n.BC.EventFilter(addrs, keys, nil)
+	if err != nil {
+		if errors.Is(err, db.ErrKeyNotFound) {
+			return nil, nil // empty chain
+		}
+		return nil, err
+	}
+	defer f.Close()
+	var out []string
+	var tok *blockchain.ContinuationToken
+	for guard := 0; guard < 100000; guard++ {
+		evs, next, err := f.Events(tok, chunk)
+		if err != nil {
+			return out, err
+		}
+		for _, e := range evs {
+			out = append(out, fmt.Sprintf("b%d/%s tx%d/%s ev%d from=%s keys=%v data=%v", e.BlockNumber, e.BlockHash.String(), e.TransactionIndex,
+				e.TransactionHash.String(), e.EventIndex, e.From.String(), feltStrs(e.Keys), feltStrs(e.Data)))
+		}
+		if next.IsEmpty() {
+			return out, nil
+		}
+		nt := next
+		tok = &nt
+	}
+	return out, errors.New("continuation tokens do not terminate")
+}
+
+func feltStrs(fs []felt.Felt) []string {
+	out := make([]string, len(fs))
+	for i := range fs {
+		out[i] = fs[i].String()
+	}
+	return out
+}
+
+// ObserveEvents adds event-query answers (unfiltered and per address) to an observation.
+func (n *Node) ObserveEvents(o Obs, ids *Ids) {
+	evs, err := n.Events(nil, nil, 1000)
+	o["events/all"] = render(evs, err)
+	for _, a := range ids.Addrs {
+		evs, err := n.Events([]felt.Address{felt.Address(a)}, nil, 1000)
+		o["events/from/"+a.String()] = render(evs, err)
+	}
+}
